@@ -17,6 +17,7 @@ import (
 	"time"
 
 	"github.com/arloliu/go-secs/v2/hsms"
+	"github.com/arloliu/go-secs/v2/hsmsss"
 	"github.com/arloliu/go-secs/v2/secs2"
 	"pgregory.net/rapid"
 	"verif/harness/ev"
@@ -139,6 +140,18 @@ func runC06(rt *rapid.T, allowCtl bool) {
 	}
 	if err := w.selectAsPeer(p, 0x5e1ec7ed); err != nil {
 		rt.Fatalf("VERIF-INFRA: %v", err)
+	}
+	// the System Bytes generator is positioned just before its 32-bit wrap in a quarter of the cases
+	// (hook): the transactions of the case then straddle the wrap, where uniqueness among the open
+	// transactions matters as much as anywhere else
+	wrapped := false
+	framesBeforeSeed := 0
+	if rapid.IntRange(0, 3).Draw(rt, "nearWrap") == 0 {
+		framesBeforeSeed = len(p.Frames()) // a full cycle later values recur by design: uniqueness is asked of what follows the seeding
+		wrapped = hsms.VerifSeedSystemBytes(hsmsss.VerifInner(w.conn), 0xFFFFFFFF-uint32(rapid.IntRange(0, 12).Draw(rt, "beforeWrap")))
+		if !wrapped {
+			rt.Fatalf("VERIF-INFRA: the System Bytes hook does not reach this connection")
+		}
 	}
 	n := rapid.IntRange(1, 12).Draw(rt, "senders")
 	// slow write: the peer's window stays closed for a while, so the (single) sender's write completes
@@ -428,8 +441,11 @@ func runC06(rt *rapid.T, allowCtl bool) {
 		}
 	}
 	// --- system bytes pairwise distinct among everything the library originated on this connection
-	seen := map[uint32]bool{0x5e1ec7ed: !active}
-	for _, f := range p.Frames() {
+	seen := map[uint32]bool{0x5e1ec7ed: !active && !wrapped}
+	for fi, f := range p.Frames() {
+		if wrapped && fi < framesBeforeSeed {
+			continue
+		}
 		if f.F.IsData() && f.F.Function()%2 == 0 {
 			continue // replies reuse the peer's system bytes by design
 		}
@@ -531,7 +547,10 @@ func runC06(rt *rapid.T, allowCtl bool) {
 	for k := range outc {
 		cls = append(cls, "c06:outcome:"+k)
 	}
-	key := fmt.Sprint(active, equip, drop, pol)
+	if wrapped {
+		cls = append(cls, "c06:sysbytes-near-wrap")
+	}
+	key := fmt.Sprint(active, equip, drop, pol, wrapped)
 	ev.Case(nontrivial, key, func() any {
 		var out []string
 		for i, pl := range pol {
